@@ -19,7 +19,7 @@ def validate_trace(module_dir, module, trace, timeout=1200, heap="4g"):
     t0 = time.time()
     try:
         for attempt in (1, 2):
-            rc, out = run(["java", "-XX:+UseParallelGC", "-Xmx" + heap, "-cp", TLA_CP, "tlc2.TLC",
+            rc, out = run(["java", "-XX:+UseParallelGC", "-Xmx" + heap, "-Djava.io.tmpdir=" + md, "-cp", TLA_CP, "tlc2.TLC",
                            "-workers", "1", "-metadir", os.path.join(md, str(attempt)), "-noGenerateSpecTE",
                            "-config", module + ".cfg", module + ".tla"],
                           cwd=module_dir, env={"TRACE": trace}, timeout=timeout)
@@ -44,7 +44,7 @@ def check_model(module_dir, module, cfgfile, workers=None, timeout=3600, heap="1
     md = tempfile.mkdtemp(prefix="tlc-md-", dir=WORK)
     t0 = time.time()
     try:
-        rc, out = run(["java", "-XX:+UseParallelGC", "-Xmx" + heap, "-cp", TLA_CP, "tlc2.TLC",
+        rc, out = run(["java", "-XX:+UseParallelGC", "-Xmx" + heap, "-Djava.io.tmpdir=" + md, "-cp", TLA_CP, "tlc2.TLC",
                        "-workers", str(workers or NCPU), "-metadir", md, "-noGenerateSpecTE", "-config", cfgfile] + list(extra)
                       + [module + ".tla"], cwd=module_dir, timeout=timeout)
         m = _STATES.search(out)
